@@ -28,6 +28,7 @@ for d in sorted(glob.glob(os.path.join(ROOT, "seeded", "*"))):
     rows.append("| %s | %s | %s | %s | %s | %s |" % (m["id"], m["property"], m["what"].replace("|", "\\|"), first.replace("|", "\\|"), now.replace("|", "\\|"), m.get("strengthening", "").replace("|", "\\|")))
 p = os.path.join(ROOT, "DESIGN.md")
 s = open(p).read()
-s = re.sub(r"<!-- SEEDED-TABLE-BEGIN -->.*<!-- SEEDED-TABLE-END -->", "<!-- SEEDED-TABLE-BEGIN -->\n" + "\n".join(rows) + "\n<!-- SEEDED-TABLE-END -->", s, flags=re.S)
+block = "<!-- SEEDED-TABLE-BEGIN -->\n" + "\n".join(rows) + "\n<!-- SEEDED-TABLE-END -->"
+s = re.sub(r"<!-- SEEDED-TABLE-BEGIN -->.*<!-- SEEDED-TABLE-END -->", lambda m: block, s, flags=re.S)
 open(p, "w").write(s)
 print(len(rows) - 2, "rows")
